@@ -1678,7 +1678,20 @@ func (fr *Frame) binop(x *ssa.BinOp) Val {
 			return Val{T: "(" + op + " (" + f + " " + a.T + " " + b.T + ") 0)", Ty: boolT}
 		}
 		if !isInt(opT) {
-			return Val{T: e.sc.fresh("fcmp", "Bool"), Ty: boolT}
+			// floats are opaque values; the order is an uninterpreted relation of the two operands (so that a
+			// contract can name the outcome of a comparison), nothing else is known about it
+			lt := e.sc.declFun("flt", []string{"Int", "Int"}, "Bool")
+			le := e.sc.declFun("fle", []string{"Int", "Int"}, "Bool")
+			switch x.Op {
+			case token.LSS:
+				return Val{T: "(" + lt + " " + a.T + " " + b.T + ")", Ty: boolT}
+			case token.GTR:
+				return Val{T: "(" + lt + " " + b.T + " " + a.T + ")", Ty: boolT}
+			case token.LEQ:
+				return Val{T: "(" + le + " " + a.T + " " + b.T + ")", Ty: boolT}
+			default:
+				return Val{T: "(" + le + " " + b.T + " " + a.T + ")", Ty: boolT}
+			}
 		}
 		return Val{T: "(" + op + " " + a.T + " " + b.T + ")", Ty: boolT}
 	}
